@@ -4,6 +4,7 @@ CONSTANTS
   MinTimeout = 10000
   RetrySlack = 90000
   SchedSlack = 5000
+  RepeatLag = 5000
   GapBound <- GapBoundMs
 CONSTRAINT HighWater
 POSTCONDITION TraceAccepted
